@@ -4,6 +4,7 @@ import (
 	"bytes"
 	"fmt"
 	"reflect"
+	"sort"
 	"strings"
 	"time"
 
@@ -362,9 +363,33 @@ func suiteDocument(r *Rng, n int, thorough bool, o *Out) {
 				doc.Links["prev"] = jsonapi.Link{HRef: "/p", Meta: map[string]any{"k": 1}}
 			}
 		}
-		url := &jsonapi.URL{Fragments: []string{ts[0].typ.Name}, Params: &jsonapi.Params{Fields: fields}}
+		// the URL: a collection or a single-resource URL whose ID may need escaping; the self
+		// link is computed from a separate copy, so that the URL handed to MarshalDocument has
+		// not been read before
+		frags := []string{ts[0].typ.Name}
+		resID := ""
+		if r.chance(1, 2) {
+			resID = []string{"1", "a b", "50%", "é", "x/y", "a+b", "q?", "~.-_"}[r.IntN(8)]
+			frags = append(frags, resID)
+			o.stat("url.with-id")
+		}
+		mkURL := func() *jsonapi.URL {
+			return &jsonapi.URL{Fragments: append([]string{}, frags...), ResType: ts[0].typ.Name, ResID: resID, IsCol: resID == "",
+				Params: &jsonapi.Params{Fields: fields}}
+		}
+		url := mkURL()
+		urlSnap := func(u *jsonapi.URL) string {
+			fs := map[string][]string{}
+			for t, l := range u.Params.Fields {
+				c := append([]string{}, l...)
+				sort.Strings(c)
+				fs[t] = c
+			}
+			return fmt.Sprintf("%q %q %q %v %s", u.Fragments, u.ResType, u.ResID, u.IsCol, sxFieldsMap(fs))
+		}
+		urlBefore := urlSnap(url)
 		selfHref := ""
-		guard(func() { selfHref = doc.PrePath + url.String() })
+		guard(func() { selfHref = doc.PrePath + mkURL().String() })
 		op := lst("marshal", "doc", sxDocument(doc), sxFieldsMap(fields), hx(selfHref))
 		before := map[string]map[string]string{}
 		all := append(append([]jsonapi.Resource{}, prim...), doc.Included...)
@@ -492,6 +517,9 @@ func suiteDocument(r *Rng, n int, thorough bool, o *Out) {
 					v.fail("C11", "marshaling changed what is read from a resource ("+k+")")
 				}
 			}
+		}
+		if a := urlSnap(url); a != urlBefore {
+			v.fail("C11", "marshaling changed what is read from the URL: "+urlBefore+" became "+a)
 		}
 		pv := v.String()
 		o.emit(op, obs, pv)
